@@ -48,7 +48,7 @@ def main(tier, only):
         common.src_range("src/isla_formalizations/simple_tar.py", "tar_checksum"), common.src_range("src/isla_formalizations/tar.py", "ljust_crop_tar"), common.src_range("src/isla/evaluator.py", "evaluate"),
         common.src_range("src/isla/solver.py", "ISLaSolver.solve")])
     quick = tier == "quick"
-    D, TOP = (3, 6) if quick else (4, 4)      # thorough: tree codes below 4 * 16^3 = 16384 (the full 16^4 space did not finish within an hour)
+    D, TOP = (3, 6) if quick else (4, 1)      # thorough: tree codes below 16^3 = 4096 (larger spaces did not finish within an hour on a shared machine)
     P = 4 if quick else 16
     to = 600 if quick else 5400
     cfgs = []
@@ -66,7 +66,7 @@ def main(tier, only):
     PX = 8 if quick else 16
     for k in range(PX):
         cfgs.append(dict(tag="xml-ns.p%d" % k, only=["adq_xml_ns"], timeout=to, allow_vacuous=True,
-                         env={"VERIF_PART": "%d/%d" % (k, PX), "VERIF_XML_SLOTS": "1,1" if quick else "2,1", "VERIF_XML_CLOSE": "0,2" if quick else "0,1,2,3", "VERIF_XML_INNER_ATTRS": "0,1,2,4,7,8" if quick else "",
+                         env={"VERIF_PART": "%d/%d" % (k, PX), "VERIF_XML_SLOTS": "1,1", "VERIF_XML_CLOSE": "0,2" if quick else "0,1,2,3", "VERIF_XML_INNER_ATTRS": "0,1,2,4,7,8" if quick else "",
                               "VERIF_SKIP_FEATURES": ",".join(KNOWN_FEATURES.get("xml", []))}))
     PT = 8 if quick else 16
     for k in range(PT):
@@ -83,7 +83,7 @@ def main(tier, only):
                  "right-to-left child order), is below %d, with identifiers / fields / texts chosen from small macro sets; simple tar: every header built from "
                  "3 names x padding 99/100/101 x type flag x %d link names x padding x 4 checksum variants, 1 entry%s" % (TOP * 16 ** (D - 1), 2 if quick else 4, "" if quick else " or 2 entries (one of them the valid baseline)"),
         xml_namespaces="element-level scenarios: outer element (4 prefixes x %s attributes from a menu of 8 incl. xmlns:a / xmlns:b / prefixed / xml: / xmlns:xmlns / default namespace) x 5 body kinds "
-                       "(text, self-closing, child, child with text, two children) x inner element (4 prefixes x 1 attribute%s) x %d close-tag variants" % ("1" if quick else "2", " from 6 of the menu" if quick else "", 2 if quick else 4),
+                       "(text, self-closing, child, child with text, two children) x inner element (4 prefixes x 1 attribute%s) x %d close-tag variants" % ("1", " from 6 of the menu" if quick else "", 2 if quick else 4),
         solve="%d seeds x 5 cost settings (default, the repository's two tuned vectors, two extreme vectors) x instantiation limits %s, first %d solutions (tar: %d)" % (
             nseeds, "1" if quick else "1..2", nsol, max(3, nsol // 2)))
     run.engines = dict(crosshair="crosshair-tool 0.0.110 on z3 4.11.2")
